@@ -580,7 +580,16 @@ class World:
             return
         self.used_contracts.add(key)
         stub = 'stub' in c.opts
-        if stub:
+        vin = next((o.split('=')[1] for o in c.opts if o.startswith('verified-in=')), None)
+        if stub and vin:
+            # callee verified in another world under the same contract text
+            other = World(vin).vc.fns.get(key)
+            norm = lambda t: re.sub(r'\s+', ' ', re.sub(r'//[^\n]*', '', t)).strip().rstrip(',')
+            if other is None or 'stub' in other.opts:
+                raise Inconclusive(f'{c.origin}: {cname} is not verified in world {vin}')
+            if norm(other.ensures) != norm(c.ensures) or norm(other.requires) != norm(c.requires):
+                raise Inconclusive(f'{c.origin}: contract of {cname} differs from the one verified in world {vin}')
+        elif stub:
             body_sha = sha(re.sub(rb'\s+', b' ', src[it['span'][0]:it['span'][1]]))[:16]
             pin = next((o.split('=')[1] for o in c.opts if o.startswith('pin=')), None)
             self.stubs.append({'mod': modpath, 'name': cname, 'file': m['file'], 'sha': body_sha, 'pin': pin, 'contract': os.path.relpath(c.origin, VERIF)})
